@@ -130,6 +130,9 @@ class VroomMon(Monitor):
             why = C.inbox_problem(self.pt, grew[-1].get_domain())
             if why:
                 self.v("C13:point_outside_the_deepest_cell_of_the_chain", why=why)
+                # C04: "the sampled cell and the descendants it drew the point from" - a credited descendant that
+                # does not contain the point is not one of those
+                self.v("C04:credited_descendant_does_not_contain_the_point", why=why, depth=grew[-1].get_depth())
             ul = getattr(ctx.algo, "update_list", None)
             if ul is not None and [id(x) for x in ul] != [id(x) for x in grew]:
                 self.v("C04:credited_cells_differ_from_the_sampled_chain")
